@@ -58,8 +58,18 @@ def laws(cls):
     def abc(it, n=3):
         return [sym_pose(cls, x, unit=True) for x in "abc"[:n]]
 
+    def pure(it, x, meth, args):
+        """Call x.<meth>(*args); the operators are functions of their operands' *values*: no operand is modified."""
+        before = [(o, list(o.data)) for o in [x] + list(args) if isinstance(o, (Pose, Arr)) and getattr(o, "ndim", 1) == 1]
+        out = it.call_method(x, meth, args)
+        for k, (o, data) in enumerate(before):
+            if len(o.data) != len(data) or any(u != v for u, v in zip(o.data, data)):
+                raise ObFail("%s.%s modifies its %s in place (the caller's %s changes under an operator that must build a new object)" % (
+                    cls, meth, "left operand" if k == 0 else "argument", "pose" if isinstance(o, Pose) else "array"))
+        return out
+
     def add(it, x, y):
-        return it.call_method(x, "__add__", [y])
+        return pure(it, x, "__add__", [y])
 
     def law_matrix_product(it):
         a, b = abc(it, 2)
@@ -71,15 +81,15 @@ def laws(cls):
 
     def law_ominus(it):
         a, b = abc(it, 2)
-        l = it.call_method(a, "__sub__", [b])
-        r = add(it, it.call_method(b, "inverse", []), a)
+        l = pure(it, a, "__sub__", [b])
+        r = add(it, pure(it, b, "inverse", []), a)
         pose_equal(it, l, r, "a (-) b != b^-1 (+) a")
         return dict(terms=nterms(l))
 
     def law_inverse(it):
         a, = abc(it, 1)
-        inv = it.call_method(a, "inverse", [])
-        e = it.call_method(a, "identity", [])
+        inv = pure(it, a, "inverse", [])
+        e = pure(it, a, "identity", [])
         pose_equal(it, add(it, a, inv), e, "a (+) a^-1 != identity")
         pose_equal(it, add(it, inv, a), e, "a^-1 (+) a != identity")
         require_same(ref_matrix(it, e), Arr(I(len(ref_R_t(it, e)[1]) + 1), 2), "identity() is not the identity transform")
@@ -214,7 +224,7 @@ def run(run_, pkg, tier):
             hook = qnorm_le_one_hook(["d[3]", "d[4]", "d[5]"]) if cls == "PoseSE3" else None
 
             def task(pkg, law=law, hook=hook):
-                return run_obligation(pkg, law, hook=hook)
+                return run_obligation(pkg, law, hook=hook, divisors=lambda name: True)
             anchor = pkg.method(cls, "__add__")
             tasks.append((key, "C09-group-law", task, "%s:%d" % (anchor._gs_module, anchor.lineno)))
     run_.floor("group-law obligations", len(tasks) if run_.only is None else 39, 39)
